@@ -73,3 +73,36 @@ package app
 //@   loop 1 invariant [none_before] forall j int :: 0 <= j && j <= rangeindex ==> !(inboundRoute(s.routes[j].ChannelType) && routeMatches(s.routes[j], r, requestPath))
 //@   ensures [C10:first_inbound_match] result1 ==> let i := rangeindex1 :: 0 <= i && i < len(s.routes) && result0 == s.routes[i].Path && inboundRoute(s.routes[i].ChannelType) && routeMatches(s.routes[i], r, requestPath) && (forall j int :: 0 <= j && j < i ==> !(inboundRoute(s.routes[j].ChannelType) && routeMatches(s.routes[j], r, requestPath)))
 //@   ensures [C10:none_means_no_match] !result1 ==> result0 == "" && forall j int :: 0 <= j && j < len(s.routes) ==> !(inboundRoute(s.routes[j].ChannelType) && routeMatches(s.routes[j], r, requestPath))
+
+//@ func (*runtimeState).loadAuth
+//@   requires s != nil
+//@   modifies *
+//@   calls InheritReplayState requires [C09:replay_state_kept] heldW() && arg1 == s.hmacByRoute[route] && arg0 == hmacByRoute[route]
+
+// ---- C11: which allowlist is consulted ----
+
+//@ spec
+//@ func effectivePullAuth(s *runtimeState, ep string, r *http.Request) pullapi.Authorizer := ite(r != nil && len(s.pullByRoute) > 0 && ep != "" && ep in s.pathToRoute && s.pathToRoute[ep] in s.pullByRoute && s.pullByRoute[s.pathToRoute[ep]] != nil, s.pullByRoute[s.pathToRoute[ep]], s.pullAuthorize)
+//@ func effectiveWorkerAuth(s *runtimeState, ep string) workerapi.Authorizer := ite(len(s.workerByRoute) > 0 && trim(ep) in s.pathToRoute && s.pathToRoute[trim(ep)] in s.workerByRoute && s.workerByRoute[s.pathToRoute[trim(ep)]] != nil, s.workerByRoute[s.pathToRoute[trim(ep)]], s.workerAuthorize)
+
+//@ extern local:auth(r) (ok)
+//@   modifies consultedAuth, consultedWorkerAuth, consultedAdminAuth, consultedResult
+//@   ensures consultedAuth == callee && consultedWorkerAuth == callee && consultedAdminAuth == callee && consultedResult == ok
+
+//@ func pullEndpointFromRequest
+//@   ensures [C11:endpoint_rule] result == pullEndpointSpec(r)
+
+//@ func (*runtimeState).authorizePull
+//@   requires s != nil
+//@   modifies consultedAuth, consultedWorkerAuth, consultedAdminAuth, consultedResult
+//@   ensures [C11:override_replaces_global] let eff := effectivePullAuth(s, pullEndpointSpec(r), r) :: (eff == nil ==> result) && (eff != nil ==> consultedAuth == eff && result == consultedResult)
+
+//@ func (*runtimeState).authorizeWorker
+//@   requires s != nil
+//@   modifies consultedAuth, consultedWorkerAuth, consultedAdminAuth, consultedResult
+//@   ensures [C11:override_replaces_global] let eff := effectiveWorkerAuth(s, endpoint) :: (eff == nil ==> result) && (eff != nil ==> consultedWorkerAuth == eff && result == consultedResult)
+
+//@ func (*runtimeState).authorizeAdmin
+//@   requires s != nil
+//@   modifies consultedAuth, consultedWorkerAuth, consultedAdminAuth, consultedResult
+//@   ensures [C11:admin_tokens_enforced] (s.adminAuthorize == nil ==> result) && (s.adminAuthorize != nil ==> consultedAdminAuth == s.adminAuthorize && result == consultedResult)
